@@ -271,3 +271,37 @@ def write_evidence(pid, tier, seed, level, coverage, wall, violations=0, assumpt
     with open(os.path.join(EVID, pid + ".json"), "w") as f:
         json.dump(ev, f, indent=1, sort_keys=True)
     return ev
+
+
+def tlc_chunks(spec, cfg, wdir, obsfile, chunk, what, extra_env=None, parallel=4, workers=4, heap="6g", timeout=3000, keep_tail=0):
+    """Validate a recorded ndjson trace file in chunks by parallel TLC processes.
+    keep_tail: number of trailing lines that must stay in the last chunk together (not split).
+    Returns (states, generated, [(global_line_index_1based, rej_record)], lines)."""
+    import concurrent.futures as cf
+    with open(obsfile) as f:
+        lines = f.readlines()
+    chunks = []
+    for k in range(0, max(1, len(lines)), chunk):
+        p = "%s.%03d" % (obsfile, k // chunk)
+        with open(p, "w") as g:
+            g.writelines(lines[k:k + chunk])
+        chunks.append((p, k))
+
+    def one(p, k):
+        rejf = p + ".rej"
+        if os.path.exists(rejf):
+            os.remove(rejf)
+        env = {"VERIF_OBS": p, "VERIF_REJ": rejf}
+        env.update(extra_env or {})
+        r = tlc(spec, cfg, wdir, env=env, workers=workers, timeout=timeout, heap=heap)
+        tlc_must_pass(r, "%s chunk@%d" % (what, k))
+        return r, [(k + x["n"], x) for x in read_ndjson(rejf) if x.get("law") != "stats"]
+    states = gen = 0
+    out = []
+    with cf.ThreadPoolExecutor(max_workers=parallel) as ex:
+        for fut in [ex.submit(one, p, k) for p, k in chunks]:
+            r, rej = fut.result()
+            states += r.distinct
+            gen += r.generated
+            out += rej
+    return states, gen, out, lines
